@@ -5,7 +5,7 @@ driver operation `src.call <function> <arg>…`: run the *translated* source of 
 This validates translator + run-time against the real function, independently of the equivalence proofs.
 
 wire format of a `PyVal` (no white space): `N` | `T` | `F` | `i<decimal>` | `s<hex code points joined by '.', '-' = empty>`
-| `L[v,v,…]` list | `U[…]` tuple | `I[…]` materialised iterator | `m` NegativeInfinity | `p` Infinity
+| `L[v,v,…]` list | `U[…]` tuple | `I[…]` materialised iterator | `D[U[k,v],…]` dict | `m` NegativeInfinity | `p` Infinity
 | `O<Class>{field=v,…}` object (`Oset{items=L[…]}` / `Ofrozenset{…}`: members sorted by wire form)
 -/
 namespace DriverSrc
@@ -31,6 +31,11 @@ def encVal : PyVal → String
   | .obj c fs => "O" ++ c ++ "{" ++ encFields fs ++ "}"
   | .unbound => "?"
   | .notImpl => "X"
+  | .dict kvs => "D[" ++ encItems kvs ++ "]"
+def encItems : List (PyVal × PyVal) → String
+  | [] => ""
+  | [(k, v)] => "U[" ++ encVal k ++ "," ++ encVal v ++ "]"
+  | (k, v) :: r => "U[" ++ encVal k ++ "," ++ encVal v ++ "]," ++ encItems r
 def encValList : List PyVal → List String
   | [] => []
   | v :: vs => encVal v :: encValList vs
@@ -72,6 +77,8 @@ def parseVal : Nat → List Char → Option (PyVal × List Char)
     | 'L' :: '[' :: r => (parseVals fuel r).map fun (l, r') => (.list l, r')
     | 'U' :: '[' :: r => (parseVals fuel r).map fun (l, r') => (.tuple l, r')
     | 'I' :: '[' :: r => (parseVals fuel r).map fun (l, r') => (.iter l, r')
+    | 'D' :: '[' :: r => (parseVals fuel r).map fun (l, r') =>
+        (.dict (l.filterMap fun p => match p with | .tuple [k, v] => some (k, v) | _ => none), r')
     | 'O' :: r =>
       let c := r.takeWhile isIdent
       match r.dropWhile isIdent with
